@@ -51,8 +51,14 @@ func (c split) Recv() ([]byte, error) {
 			continue // incomplete line
 		}
 		line := buf.Bytes()
-		if n := len(line) - 1; n >= 0 {
-			return line[:n], err
+		if err == nil {
+			return line[:len(line)-1], nil // strip the delimiter
+		}
+
+		// The input ended (or failed) before a delimiter: whatever was read is
+		// an unterminated final record. Report it whole along with the error.
+		if len(line) != 0 {
+			return line, err
 		}
 		return nil, err
 	}
